@@ -54,6 +54,6 @@ Drains == [](s.db.outbox # <<>> => <>(s.db.outbox = <<>>))
 (* listed before Safety in the cfg: prints the crash points of a state that violates Safety *)
 EmitBad == Safety \/ PrintT(<<"BAD", ToJson([cr |-> cr])>>)
 EmitDone == (~Emit) \/ s.pc # "done" \/ PrintT(<<"B", ToJson([cr |-> cr])>>)
-ASSUME PrintT(<<"CONST", ToJson([others |-> Others, phaseLen |-> PhaseLen, dealBlock |-> DealBlock, accBlock |-> AccBlock, init |-> InitState])>>)
+ASSUME PrintT(<<"CONST", ToJson([others |-> Others, phaseLen |-> PhaseLen, dealBlock |-> DealBlock, accBlock |-> AccBlock, syncEvery |-> SyncEvery, syncOff |-> SyncOff, init |-> InitState])>>)
 
 =============================================================================
